@@ -367,6 +367,7 @@ type config struct {
 	special bool // scripted 404/405/OPTIONS handlers instead of the defaults
 	attach  int  // how the Logger instance(s) are attached, see attachModes
 	minLvl  int  // minimum level of the capturing slog.Handler, see minLevels
+	masks   []int // attach == attachScoped: one WithMiddlewareFor(mask, L) per entry (5-bit masks over scopeBits)
 }
 
 // how the Logger (one capturing instance, possibly attached several times) is put in the chain
@@ -388,6 +389,63 @@ var attachModes = []attachMode{
 }
 
 const attachDefaultOptions = 7
+
+// attachScoped: the Logger is attached by one WithMiddlewareFor(mask, L) per entry of config.masks; the
+// masks are chosen by the harness (scope sweep: every non-empty subset of the five handler kinds).
+// Two independent tables turn a mask into the fox option and into the Coq term.
+const attachScoped = 8
+
+var scopeBits = []struct {
+	fox  fox.HandlerScope
+	name string
+	coq  string
+}{
+	{fox.RouteHandler, "Route", "SRoute"},
+	{fox.NoRouteHandler, "NoRoute", "SNoRoute"},
+	{fox.NoMethodHandler, "NoMethod", "SNoMethod"},
+	{fox.RedirectHandler, "Redirect", "SRedirect"},
+	{fox.OptionsHandler, "Options", "SOptions"},
+}
+
+func maskFox(m int) (sc fox.HandlerScope) {
+	for i, b := range scopeBits {
+		if m&(1<<i) != 0 {
+			sc |= b.fox
+		}
+	}
+	return sc
+}
+func maskName(m int) string {
+	var ns []string
+	for i, b := range scopeBits {
+		if m&(1<<i) != 0 {
+			ns = append(ns, b.name)
+		}
+	}
+	return strings.Join(ns, "|")
+}
+func maskCoq(m int) string {
+	var ns []string
+	for i, b := range scopeBits {
+		if m&(1<<i) != 0 {
+			ns = append(ns, b.coq)
+		}
+	}
+	return "AWithMiddlewareFor [" + strings.Join(ns, "; ") + "]"
+}
+
+// mode: how the Logger of this configuration is attached (table entry, or built from the scope masks)
+func (c config) mode() attachMode {
+	if c.attach != attachScoped {
+		return attachModes[c.attach]
+	}
+	var ns, cs []string
+	for _, m := range c.masks {
+		ns = append(ns, "WithMiddlewareFor("+maskName(m)+", L)")
+		cs = append(cs, maskCoq(m))
+	}
+	return attachMode{strings.Join(ns, " + "), "[" + strings.Join(cs, "; ") + "]", 0, 0}
+}
 
 func (c config) globCoq() string {
 	if c.glob == nil {
@@ -415,7 +473,7 @@ func (c config) String() string {
 	} else if c.rtMode == 2 {
 		r = c.rt.human
 	}
-	return fmt.Sprintf("logger: %s, log handler minimum level %s | global-resolver=%s route-resolver=%s custom-special-handlers=%v", attachModes[c.attach].name, minLevels[c.minLvl].name, g, r, c.special)
+	return fmt.Sprintf("logger: %s, log handler minimum level %s | global-resolver=%s route-resolver=%s custom-special-handlers=%v", c.mode().name, minLevels[c.minLvl].name, g, r, c.special)
 }
 
 // context substituted by a middleware placed BEFORE the Logger: none, a pooled copy from CloneWith, or a
@@ -466,6 +524,10 @@ func build(cfg config, w *world, withLogger bool) *fox.Router {
 			opts = append(opts, fox.WithMiddlewareFor(fox.NoRouteHandler|fox.NoMethodHandler|fox.RedirectHandler|fox.OptionsHandler, L))
 		case 6:
 			opts = append(opts, fox.WithMiddlewareFor(fox.RouteHandler, L), fox.WithMiddlewareFor(fox.AllHandlers, L))
+		case attachScoped:
+			for _, m := range cfg.masks {
+				opts = append(opts, fox.WithMiddlewareFor(maskFox(m), L))
+			}
 		}
 	}
 	opts = append(opts, fox.WithMiddleware(marker), fox.WithRedirectTrailingSlash(true))
@@ -488,7 +550,7 @@ func build(cfg config, w *world, withLogger bool) *fox.Router {
 	}
 	must := func(_ *fox.Route, err error) { hx.Fatal(err) }
 	aliasOpts := append([]fox.RouteOption{}, ro...)
-	if withLogger && attachModes[cfg.attach].al > 0 {
+	if withLogger && cfg.mode().al > 0 {
 		aliasOpts = append(aliasOpts, fox.WithMiddleware(L))
 	}
 	// the alias route re-dispatches to the route GET /r/{id} through the secondary entry points
@@ -500,7 +562,7 @@ func build(cfg config, w *world, withLogger bool) *fox.Router {
 			target.HandleMiddleware(c)
 		}
 	}, aliasOpts...))
-	if withLogger && attachModes[cfg.attach].tl > 0 {
+	if withLogger && cfg.mode().tl > 0 {
 		ro = append(ro, fox.WithMiddleware(L))
 	}
 	must(f.Handle("GET", "/r/{id}", scripted, ro...))
@@ -758,7 +820,7 @@ func main() {
 			"Definition viol := Eval vm_compute in spec_violations cases.\nPrint viol.\n" +
 			"Definition oof := Eval vm_compute in fuel_outs cases.\nPrint oof.\n",
 	}
-	st := &hx.Stats{Rule: "per configuration (a middleware placed before the Logger hands on the context itself, a CloneWith copy or a Clone() with the live writer; capturing log handler with minimum level DEBUG / INFO / WARN / ERROR / above ERROR; Logger attached by WithMiddleware / WithMiddlewareFor with 4 scope masks / route option / several at once / DefaultOptions; router-wide resolver: none/ok/error tree; per-route resolver: inherit/nil/set; default or scripted 404/405/OPTIONS handlers) two routers are built (with and without LoggerWithHandler(capture)); every request kind (route, route reached through an alias handler calling Route.HandleMiddleware or Route.Handle, route reached by Router.Lookup + HandleMiddleware / Handle, route via ignore-trailing-slash, 404, 405, redirect 301/308, OPTIONS) is served with scripts of writer actions: (a) every status of a boundary list alone, (b) seeded random scripts (no write, implicit 200, 1xx then final, superfluous WriteHeader, Location before/after the status line, Flush/FlushError first (c.Writer().FlushError() or http.NewResponseController(w).Flush(), on an underlying writer offering nothing / http.Flusher / FlushError() error; enumerated with then-nothing / WriteHeader(500|404|302) / Write) — the underlying writers record what the CLIENT received (first final status forwarded; 200 after a bare flush or write), panic with one of 6 values at a random position); non-trivial = anything but a plain 2xx route request without resolver; distinct = distinct (configuration, request, host, remote, script) tuples"}
+	st := &hx.Stats{Rule: "per configuration (a middleware placed before the Logger hands on the context itself, a CloneWith copy or a Clone() with the live writer; capturing log handler with minimum level DEBUG / INFO / WARN / ERROR / above ERROR; Logger attached by WithMiddleware / WithMiddlewareFor with 4 scope masks / route option / several at once / DefaultOptions, plus a scope sweep: WithMiddlewareFor over all 31 non-empty subsets of the five handler kinds (default and scripted 404/405/OPTIONS handlers) and all 15 splits mask + complement over two options, each crossed with every request kind and entry point; router-wide resolver: none/ok/error tree; per-route resolver: inherit/nil/set; default or scripted 404/405/OPTIONS handlers) two routers are built (with and without LoggerWithHandler(capture)); every request kind (route, route reached through an alias handler calling Route.HandleMiddleware or Route.Handle, route reached by Router.Lookup + HandleMiddleware / Handle, route via ignore-trailing-slash, 404, 405, redirect 301/308, OPTIONS) is served with scripts of writer actions: (a) every status of a boundary list alone, (b) seeded random scripts (no write, implicit 200, 1xx then final, superfluous WriteHeader, Location before/after the status line, Flush/FlushError first (c.Writer().FlushError() or http.NewResponseController(w).Flush(), on an underlying writer offering nothing / http.Flusher / FlushError() error; enumerated with then-nothing / WriteHeader(500|404|302) / Write) — the underlying writers record what the CLIENT received (first final status forwarded; 200 after a bare flush or write), panic with one of 6 values at a random position); non-trivial = anything but a plain 2xx route request without resolver; distinct = distinct (configuration, request, host, remote, script) tuples"}
 	seen := map[string]bool{}
 	nontrivial := 0
 
@@ -768,10 +830,37 @@ func main() {
 	}
 	reals := realResolvers()
 	nreal := 2 * len(reals)
-	for ci := 0; ci < nconf+nreal; ci++ {
+	// scope sweep (after everything else, so the random streams of the earlier configurations do not move):
+	// the Logger attached by WithMiddlewareFor over EVERY non-empty subset of the five handler kinds, with
+	// fox's own and with scripted 404/405/OPTIONS handlers, then every split of the five kinds over two
+	// WithMiddlewareFor options (mask + complement: each request meets exactly one of the two);
+	// every request kind is served once per configuration
+	type sweepConf struct {
+		masks   []int
+		special bool
+	}
+	var sweep []sweepConf
+	for m := 1; m < 1<<len(scopeBits); m++ {
+		sweep = append(sweep, sweepConf{[]int{m}, false}, sweepConf{[]int{m}, true})
+	}
+	all := 1<<len(scopeBits) - 1
+	for m := 1; m < all-m; m++ {
+		sweep = append(sweep, sweepConf{[]int{m, all - m}, m%2 == 0})
+	}
+	for ci := 0; ci < nconf+nreal+len(sweep); ci++ {
 		var cfg config
 		light := false
-		if ci >= nconf {
+		inSweep := ci >= nconf+nreal
+		if inSweep {
+			sw := sweep[ci-nconf-nreal]
+			cfg.special = sw.special
+			switch (ci - nconf - nreal) % 3 {
+			case 1:
+				cfg.glob = okRes("203.0.113.7", "", "203.0.113.7")
+			case 2:
+				cfg.glob = errRes(errTree{"ELeaf " + hx.N(5), errBoom})
+			}
+		} else if ci >= nconf {
 			// resolvers of package clientip, router-wide (even index) or on the routes (odd index) under a
 			// router-wide stub; few scripts each (the resolver, not the handler, is the point)
 			r := reals[(ci-nconf)/2]
@@ -790,7 +879,7 @@ func main() {
 		// the first configurations enumerate the resolver lattice; the rest is random
 		switch {
 		case ci >= nconf:
-			// configured above
+			// configured above (clientip resolvers, scope sweep)
 		default:
 			switch ci {
 			case 0:
@@ -824,6 +913,9 @@ func main() {
 		cfg.attach = ci % len(attachModes)
 		// minimum level of the log handler: DEBUG mostly (every record visible), the others in rotation
 		cfg.minLvl = []int{0, 0, 0, 2, 1, 3, 4}[ci%7]
+		if inSweep {
+			cfg.attach, cfg.masks, cfg.minLvl = attachScoped, sweep[ci-nconf-nreal].masks, 0
+		}
 		w := &world{}
 		withL := build(cfg, w, true)
 		w0 := &world{}
@@ -835,7 +927,16 @@ func main() {
 				scriptable = false
 			}
 			var scripts [][]act
-			if scriptable {
+			if scriptable && inSweep {
+				// the chain, not the handler, is the point: one returning script
+				var np []act
+				for _, a := range genScript(rnd) {
+					if a.kind != aPanic {
+						np = append(np, a)
+					}
+				}
+				scripts = [][]act{np}
+			} else if scriptable {
 				if (ci < 3 || tier == "thorough") && rq.disp == "" {
 					for _, s := range statuses {
 						scripts = append(scripts, []act{{kind: aWriteHeader, code: s}})
@@ -912,7 +1013,7 @@ func main() {
 				}
 				acts := hx.ListOf(mscript, func(a act) string { return a.coq() })
 				gc, rc := strings.ReplaceAll(cfg.globCoq(), remotePlaceholder, hx.Bytes(rm.ip)), strings.ReplaceAll(cfg.rtCoq(), remotePlaceholder, hx.Bytes(rm.ip))
-				key := fmt.Sprintf("%s|%s|%s|%s|%s|%s|%s|%s|%s|%d|%s", gc, rc, rq.kind, rq.method, rq.target, host, rm.addr, acts, hx.Bool(cfg.special), cfg.attach*10+cfg.minLvl, rq.disp+fmt.Sprint(subst))
+				key := fmt.Sprintf("%s|%s|%s|%s|%s|%s|%s|%s|%s|%d|%s", gc, rc, rq.kind, rq.method, rq.target, host, rm.addr, acts, hx.Bool(cfg.special), cfg.attach*10+cfg.minLvl, rq.disp+fmt.Sprint(subst, cfg.masks))
 				if seen[key] {
 					continue
 				}
@@ -922,7 +1023,7 @@ func main() {
 				if disp == "" {
 					disp = "DServe"
 				}
-				am := attachModes[cfg.attach]
+				am := cfg.mode()
 				term := fmt.Sprintf("(mk %s %s %s %s %s %s %s "+minLevels[cfg.minLvl].coq+" %s %s %s %s %s %s %s "+disp+" "+am.globals+" "+fmt.Sprint(am.tl)+" "+fmt.Sprint(am.al)+")",
 					rq.kind, gc, rc, hx.Bytes(rq.method), hx.Bytes(host), hx.Bytes(rq.path), hx.Bytes(rm.ip),
 					acts, hx.ListOf(o.recs, func(r rec) string { return "(" + recCoq(r) + ")" }), pan,
@@ -939,7 +1040,11 @@ func main() {
 					cfg, rq.method, rq.target, host, rm.addr, rq.kind, map[bool]string{true: "", false: " via " + rq.disp}[rq.disp == ""], substNames[subst], strings.Join(hs, "; "), strings.Join(rs, " || "), o.panicID, o.status, o.location, same, o.after)
 				cs.Add(term, human)
 				st.Count("kind:" + rq.kind)
-				st.Count("logger-attached:" + attachModes[cfg.attach].name)
+				if cfg.attach == attachScoped {
+					st.Count(fmt.Sprintf("logger-attached:scope sweep, %d x WithMiddlewareFor(mask, L)", len(cfg.masks)))
+				} else {
+					st.Count("logger-attached:" + am.name)
+				}
 				st.Count("context-substituted-before-logger:" + substNames[subst])
 				st.Count("log-handler-min-level:" + minLevels[cfg.minLvl].name)
 				st.Count(fmt.Sprintf("records-per-request:%d", len(o.recs)))
@@ -980,7 +1085,7 @@ func main() {
 	st.Evaluations = cs.Len()
 	st.DistinctNontrivial = nontrivial
 	st.Exhaustive = false
-	st.Extra = map[string]any{"configurations": nconf, "status_boundary_list": statuses, "panic_values": len(panicValues)}
+	st.Extra = map[string]any{"configurations": nconf, "scope_sweep_configurations": len(sweep), "status_boundary_list": statuses, "panic_values": len(panicValues)}
 	hx.Fatal(cs.Write(out, shards))
 	hx.Fatal(st.Write(out))
 	fmt.Printf("c20: %d cases written to %s\n", cs.Len(), out)
